@@ -458,6 +458,84 @@ def traffic(res, T, t, mod, rng):
         res.hist("traffic_envelope_points", npts)
 
 
+def linked_modules(res, T, t, cls, rng, n):
+    """An application keeps two modules of the type in step: a change handler on module A switches the same option ON on
+    module B (handlers as instance attributes or as methods of the application's subclass).  Whatever order the library
+    notifies in, neither module ever has two mutually exclusive options on - in memory or in what it writes."""
+    pairs = [(o.name, x) for o in t.options for x in o.exclusive_of]
+    if not pairs:
+        return
+    by = {o.name: o for o in t.options}
+    group = sorted({a for a, _b in pairs} | {b for _a, b in pairs})
+
+    def both_on(m):
+        return [(a, b) for a, b in pairs if getattr(m, a) and getattr(m, b)]
+
+    for k in range(n):
+        style = ("instance-attribute", "subclass-method")[k % 2]
+        bad = []
+        fired = [0]
+
+        def make_handler(nm, peer_of):
+            def handler(self_or_value, value=None):
+                b = peer_of(self_or_value)
+                if b is None:
+                    return
+                fired[0] += 1
+                setattr(b, nm, True)
+                on = [x for x in by[nm].exclusive_of if getattr(b, x)]
+                if not getattr(b, nm) or on:
+                    bad.append((nm, on))
+            return handler
+
+        if style == "subclass-method":
+            ns = {f"on_{nm}_changed": make_handler(nm, lambda self: getattr(self, "rvmon_peer", None)) for nm in group}
+            ns.update({"__module__": cls.__module__, "__doc__": cls.__doc__, "rvmon_peer": None})
+            sub_cls = type(cls.__name__, (cls,), ns)
+            a, b = sub_cls(), cls()
+            a.rvmon_peer = b
+        else:
+            a, b = cls(), cls()
+            for nm in group:
+                setattr(a, f"on_{nm}_changed", make_handler(nm, lambda _v, b=b: b))
+        history = []
+        case = {"type": T, "family": "linked-modules", "handlers": style, "history": history}
+        ok = True
+        for step in range(rng.randint(3, 12)):
+            target = rng.choice((a, a, b))
+            nm = rng.choice(group if rng.random() < 0.8 else sorted(by))
+            v = rng.choice(_all_values(by[nm]))
+            history.append(["a" if target is a else "b", nm, _ival(v)])
+            setattr(target, nm, v)
+            res.count("linked_module_assignments")
+            for which, m in (("A", a), ("B", b)):
+                if both_on(m):
+                    res.violation(f"C11:exclusive-both-on:{T}:linked", f"{T}: with change handlers keeping two modules in step ({style}), module {which} has {both_on(m)} on together after {history[-3:]}", case)
+                    ok = False
+            if bad:
+                res.violation(f"C11:exclusive-both-on:{T}:linked", f"{T}: inside a change handler ({style}), after switching {bad[0][0]} on on the other module its partners {bad[0][1]} are still on (history {history[-3:]})", case)
+                ok = False
+            if not ok:
+                break
+        res.count("linked_module_cases")
+        res.count("linked_module_handler_calls", fired[0])
+        res.case((T, "linked", k))
+        if not ok:
+            continue
+        for which, m in (("A", a), ("B", b)):
+            try:
+                c = m.clone()
+            except Exception as e:
+                res.violation(f"C11:clone-raises:{T}:{workload.exc_key(e)}", f"{T} with change handlers ({style}): clone raised {e!r}", case)
+                break
+            for o in t.options:
+                if _ival(getattr(c, o.name)) != _ival(getattr(m, o.name)):
+                    res.violation(f"C11:linked:{T}.{o.name}", f"{T}.{o.name} of module {which} is {getattr(m, o.name)!r}, after save/load {getattr(c, o.name)!r}", case)
+                    break
+            if both_on(c):
+                res.violation(f"C11:exclusive-both-on:{T}:linked", f"{T}: saved module {which} has {both_on(c)} on together", case)
+
+
 def random_full(res, T, rng, n):
     from rv.modules import MODULE_CLASSES
     t = spec.load()[T]
@@ -534,11 +612,30 @@ def random_full(res, T, rng, n):
             # third stage: the module lives inside the project of a MetaModule that came from a file; its options are
             # edited there, the MetaModule is saved and loaded again
             import rv.api as api
-            holder = api.m.MetaModule()
+            holder_kind = rng.choice(("metamodule", "sampler-effect", "sampler-effect-metamodule"))
+            case["holder"] = holder_kind
+            res.hist("embedded_stage_holders", holder_kind)
+
+            def inner_of(h):
+                if holder_kind == "metamodule":
+                    return h.project.modules[1]
+                if holder_kind == "sampler-effect":
+                    return h.effect.module
+                return h.effect.module.project.modules[1]
             try:
-                holder.project.attach_module(mod.clone())
+                if holder_kind == "metamodule":
+                    holder = api.m.MetaModule()
+                    holder.project.attach_module(mod.clone())
+                elif holder_kind == "sampler-effect":
+                    holder = api.m.Sampler()
+                    holder.effect = api.Synth(mod.clone())
+                else:
+                    holder = api.m.Sampler()
+                    mm_ = api.m.MetaModule()
+                    mm_.project.attach_module(mod.clone())
+                    holder.effect = api.Synth(mm_)
                 loaded = holder.clone()
-                inner = loaded.project.modules[1]
+                inner = inner_of(loaded)
                 model3 = Model(t)
                 model3.stored = dict(model.stored)
                 model3.sync_group(inner, res)
@@ -554,9 +651,9 @@ def random_full(res, T, rng, n):
                 again = loaded.clone()
                 res.count("embedded_stage_assignments")
                 for o in t.options:
-                    got, want = getattr(again.project.modules[1], o.name), model3.logical(o.name)
+                    got, want = getattr(inner_of(again), o.name), model3.logical(o.name)
                     if _ival(got) != _ival(want):
-                        res.violation(f"C11:embedded:{T}.{o.name}", f"{T}.{o.name} edited inside a loaded MetaModule's project: got {got!r} after save/load, expected {want!r} (edits {stage3})",
+                        res.violation(f"C11:embedded:{T}.{o.name}", f"{T}.{o.name} edited inside a loaded holder ({holder_kind}): got {got!r} after save/load, expected {want!r} (edits {stage3})",
                                       dict(case, stage3=stage3))
                         break
             except Exception as e:
@@ -597,6 +694,7 @@ def run_shard(spec_, res):
             sampler_older_layouts(res, rng, 40 if spec_["tier"] == "quick" else 300)
         from rv.modules import MODULE_CLASSES
         interleaved_writers(res, spec_["type"], spec.load()[spec_["type"]], MODULE_CLASSES[spec.load()[spec_["type"]].mtype], rng, 20 if spec_["tier"] == "quick" else 200)
+        linked_modules(res, spec_["type"], spec.load()[spec_["type"]], MODULE_CLASSES[spec.load()[spec_["type"]].mtype], rng, 40 if spec_["tier"] == "quick" else 400)
     res.count("types_" + spec_["mode"])
 
 
